@@ -110,8 +110,14 @@ impl fmt::Debug for Cell {
                 _ => write!(f, "{}", n),
             },
             Cell::Real(r) => write!(f, "{}", r),
-            Cell::Str(s) if flags.fitscreen() && s.len() > STR_ELIDE_LEN =>
-                write!(f, "\"{} ...", s.split_at(STR_ELIDE_LEN).0),
+            Cell::Str(s) if flags.fitscreen() && s.len() > STR_ELIDE_LEN => {
+                // cut on a character boundary
+                let mut n = STR_ELIDE_LEN;
+                while !s.is_char_boundary(n) {
+                    n -= 1;
+                }
+                write!(f, "\"{} ...", &s[..n])
+            }
             Cell::Str(s) => write!(f, "{:?}", s.as_str()),
             Cell::Vector(v) => {
                 f.write_str("[ ")?;
